@@ -44,7 +44,7 @@ def clone(node):
     return node
 
 
-SIZE_LIMIT = 90
+SIZE_LIMIT = 160
 
 
 class Val:
